@@ -393,6 +393,116 @@ pub fn strategy() -> impl Strategy<Value = Case> {
         })
 }
 
+// ---- the socket-bound transport: refused writes leave no trace ---------------------------------------------------------------
+
+#[derive(Clone, Debug, Serialize, Deserialize, PartialEq)]
+pub enum TOp {
+    Write(Vec<u8>),
+    /// attach a fresh loopback stream
+    Connect,
+    Close,
+    /// switch to the 4-byte (true) or the 2-byte (false) prefix
+    Mode(bool),
+}
+
+#[derive(Clone, Debug, Serialize, Deserialize)]
+pub struct TCase {
+    pub ops: Vec<TOp>,
+}
+
+/// One `FramedTransport` lives through a generated history of connect / write / close / mode changes. A write without a stream is
+/// an error and leaves nothing behind; every stream carries exactly the frames of the writes that succeeded while it was attached.
+pub fn transport_oracle(c: &TCase) -> Verdict {
+    use edp_client::transport::FramedTransport;
+    use tokio::io::AsyncReadExt;
+    let rt = match tokio::runtime::Builder::new_current_thread().enable_all().build() {
+        Ok(rt) => rt,
+        Err(e) => return Verdict::Fail { signature: "harness:runtime".into(), detail: e.to_string() },
+    };
+    let ops = c.ops.clone();
+    let out: Result<(Vec<Vec<u8>>, Vec<Vec<u8>>, usize), (String, String)> = rt.block_on(async move {
+        let h = |e: std::io::Error| ("harness:loopback".to_string(), e.to_string());
+        let listener = tokio::net::TcpListener::bind("127.0.0.1:0").await.map_err(h)?;
+        let addr = listener.local_addr().map_err(h)?;
+        let mut t = FramedTransport::new(std::time::Duration::from_secs(20));
+        let (mut expected, mut peers): (Vec<Vec<u8>>, Vec<tokio::net::TcpStream>) = (vec![], vec![]);
+        let (mut connected, mut dist, mut refused) = (false, false, 0usize);
+        for (k, op) in ops.iter().enumerate() {
+            match op {
+                TOp::Connect => {
+                    let (a, b) = tokio::join!(tokio::net::TcpStream::connect(addr), listener.accept());
+                    t.connect(a.map_err(h)?);
+                    peers.push(b.map_err(h)?.0);
+                    expected.push(vec![]);
+                    connected = true;
+                }
+                TOp::Close => {
+                    t.close();
+                    connected = false;
+                }
+                TOp::Mode(d) => {
+                    t.set_frame_mode(if *d { FrameMode::Distribution } else { FrameMode::Handshake });
+                    dist = *d;
+                }
+                TOp::Write(m) => match (connected, t.write(m).await) {
+                    (false, Ok(())) => return Err(("write-without-a-stream-succeeds".into(), format!("op {k}"))),
+                    (false, Err(_)) => refused += 1,
+                    (true, Ok(())) => {
+                        let e = expected.last_mut().unwrap();
+                        if dist {
+                            e.extend_from_slice(&(m.len() as u32).to_be_bytes());
+                        } else {
+                            e.extend_from_slice(&(m.len() as u16).to_be_bytes());
+                        }
+                        e.extend_from_slice(m);
+                    }
+                    (true, Err(e)) if e.to_string().to_lowercase().contains("timeout") => return Err(("harness:loopback-write-cap".into(), format!("op {k}: {e}"))),
+                    (true, Err(e)) => return Err(("write-on-a-healthy-stream-fails".into(), format!("op {k}: {e}"))),
+                },
+            }
+        }
+        t.close();
+        drop(t);
+        let mut got = vec![];
+        for mut p in peers {
+            let mut b = vec![];
+            match tokio::time::timeout(std::time::Duration::from_secs(20), p.read_to_end(&mut b)).await {
+                Ok(Ok(_)) => got.push(b),
+                Ok(Err(e)) => return Err(("harness:loopback".into(), e.to_string())),
+                // a wall-clock cap is never a verdict: inconclusive
+                Err(_) => return Err(("harness:loopback-read-cap".into(), "the peer did not see the end of a closed stream within 20 s of real time".into())),
+            }
+        }
+        Ok((expected, got, refused))
+    });
+    match out {
+        Err((signature, detail)) => Verdict::Fail { signature, detail },
+        Ok((expected, got, refused)) => {
+            for (i, (e, g)) in expected.iter().zip(got.iter()).enumerate() {
+                if e != g {
+                    vfail!(
+                        "transport-stream-carries-other-bytes",
+                        "stream #{i}: the peer read {} bytes, the successful writes on that stream make {} bytes; got starts {:02x?}, expected starts {:02x?} ({} writes were refused for lack of a stream)",
+                        g.len(),
+                        e.len(),
+                        &g[..g.len().min(12)],
+                        &e[..e.len().min(12)],
+                        refused
+                    );
+                }
+            }
+            let info = if refused > 0 && expected.iter().any(|e| !e.is_empty()) { CaseInfo::nt(fp(&format!("{:?}", c))) } else { CaseInfo::trivial() };
+            Verdict::Pass(info.class_if(refused > 0, "transport:refused-write-then-more").class_if(expected.len() >= 2, "transport:re-attached"))
+        }
+    }
+}
+
+fn transport_strategy() -> impl Strategy<Value = TCase> {
+    let msg = prop_oneof![3 => prop::collection::vec(any::<u8>(), 0..40), 1 => prop::collection::vec(any::<u8>(), 250..300), 1 => Just(vec![])];
+    let op = prop_oneof![5 => msg.prop_map(TOp::Write), 2 => Just(TOp::Connect), 2 => Just(TOp::Close), 1 => any::<bool>().prop_map(TOp::Mode)];
+    prop::collection::vec(op, 1..14).prop_map(|ops| TCase { ops })
+}
+
 pub fn run(run: &mut Run) {
     run.rule = "sequences of 0..8 messages (lengths 0,1,2,255,256,8191..8193,65535..65537, random up to 200 KB) in both framing modes, framed by frame_message and by write_framed \
         into a chunk-accepting writer, then read back through a custom AsyncRead that hands out generated chunk sizes with self-waking Pending returns in between; every chunking \
@@ -400,11 +510,12 @@ pub fn run(run: &mut Run) {
         Non-trivial = at least one frame split across reads or a Pending between chunks; distinct by (messages, chunking)"
         .into();
     run.assumptions = vec![
-        "driven by a manual poll loop (no sockets, no runtime timers); the node's second copy of the read loop is exercised over TCP under C06".into(),
+        "framer and deframer are driven by a manual poll loop (no sockets, no runtime timers); the node's second copy of the read loop is exercised over TCP under C06; the socket-bound FramedTransport has a campaign of its own over loopback streams (histories of connect / write / close / mode changes)".into(),
         "'before any buffer of that size is allocated' is decided as: no single allocation >= 64 KiB on the calling thread during the refused read".into(),
     ];
     run.enumerate("all-chunkings", all_chunkings(run.tier.pick(15, 19)).into_iter(), oracle);
     run.prop("random-streams", strategy, run.tier.pick(120_000, 3_000_000), oracle);
+    run.prop("framed-transport", transport_strategy, run.tier.pick(3_000, 8_000), transport_oracle);
     if run.tier == crate::engine::Tier::Thorough {
         // a declared length exactly at the cap must be attempted (and then fail with EOF, not InvalidData)
         let c = Case { dist: true, msg_lens: vec![3], fill: 1, chunks: vec![5], pending: vec![], eof_at: None, tail_declared: Some(CAP as u32), tail_body: 4, switched: true };
@@ -417,5 +528,5 @@ pub fn run(run: &mut Run) {
 }
 
 pub fn replays() -> Vec<ReplayEntry> {
-    vec![replay_entry("fuzz:c05", crate::fuzzbridge::eval_input), replay_entry("all-chunkings", oracle), replay_entry("random-streams", oracle), replay_entry("at-cap", oracle)]
+    vec![replay_entry("fuzz:c05", crate::fuzzbridge::eval_input), replay_entry("all-chunkings", oracle), replay_entry("random-streams", oracle), replay_entry("at-cap", oracle), replay_entry("framed-transport", transport_oracle)]
 }
